@@ -27,6 +27,19 @@ inductive Val where
   | msg (vs : List Val)                           -- aligned with the (sorted) field list
   deriving Repr, Inhabited, BEq
 
+mutual
+/-- structural (kernel-reducible) equality test on values -/
+def Val.eqb : Val → Val → Bool
+  | .int a, .int b => decide (a = b)
+  | .arr xs, .arr ys => Val.eqbList xs ys
+  | .msg xs, .msg ys => Val.eqbList xs ys
+  | _, _ => false
+def Val.eqbList : List Val → List Val → Bool
+  | [], [] => true
+  | a :: xs, b :: ys => Val.eqb a b && Val.eqbList xs ys
+  | _, _ => false
+end
+
 def extBits (ext : Bool) : Nat := if ext then 16 else 0
 
 mutual
@@ -105,7 +118,7 @@ def inRange : Ty → Val → Bool
   | .byte, .int x => decide (0 ≤ x) && decide (x < 256)
   | .uint n, .int x => decide (0 ≤ x) && decide (x < (2:Int)^n)
   | .int n, .int x => decide (-(2:Int)^(n-1) ≤ x) && decide (x < (2:Int)^(n-1))
-  | .enum _ ms, .int x => decide (0 ≤ x) && ms.contains x.toNat
+  | .enum n ms, .int x => decide (0 ≤ x) && decide (x < (2:Int)^n) && ms.contains x.toNat
   | .alias t, v => inRange t v
   | .array _ cap e, .arr vs => decide (vs.length = cap) && vs.all (inRange e)
   | .msg _ fs, .msg vs => inRangeFields fs vs
